@@ -44,10 +44,24 @@ def _base_configs():
                   calls=[(0.0812, 0.02), (0.016, 0.05)], iter="rk4"))
     c.append(dict(tag="load-dissolve-refine-at-maxbins", phases=[ph], D=1e-16, x0=0.004, load=[(4e-10, 8e-10, 1e18)], pbm=(1e-10, 5e-9, 200, 100, 200, True),
                   calls=[(20.0, 0.02), (20.0, 0.02)], iter="euler"))
+    c.append(dict(tag="strong-cooling", phases=[ph], D=1e-16, x0=0.03, xe0=0.02, se=2e-4, temp=("array", [0, H(100.0)], [1000, 950]), calls=[(100.0, 0.01)],
+                  iter="euler", constraints=dict(maxNonIsothermalDT=20)))
+    c.append(dict(tag="strong-heat-cool", phases=[ph], D=1e-16, x0=0.03, xe0=0.01, se=2e-4, temp=("array", [0, H(50.0), H(100.0)], [1000, 1030, 970]),
+                  calls=[(100.0, 0.01)], iter="euler", constraints=dict(maxNonIsothermalDT=20)))
     c.append(dict(tag="ramp-constructor", phases=[ph], D=1e-16, se=1e-5, temp=("array", [0, H(300.0)], [1000, 1010]), temp_via="constructor",
                   calls=[(300.0, 0.01)], iter="euler"))
     c.append(dict(tag="function-constructor", phases=[ph], D=1e-16, se=1e-5, temp=("function", [0, H(300.0)], [1000, 990]), temp_via="constructor",
                   calls=[(300.0, 0.01)], iter="rk4"))
+    # multicomponent path (scripted ternary backend: curvature-factor growth law)
+    c.append(dict(tag="multi-euler-2calls", multi=True, phases=[ph], calls=[(0.6, 0.02), (0.6, 0.02)], iter="euler"))
+    c.append(dict(tag="multi-rk4", multi=True, phases=[ph], calls=[(1.0, 0.02)], iter="rk4"))
+    c.append(dict(tag="multi-two-phases", multi=True, phases=[ph, dict(name="gamma", gamma=0.055, xe0=(0.005, 0.004), xb=(0.15, 0.2), w=(0.6, 1.0))],
+                  calls=[(1.0, 0.02)], iter="euler"))
+    c.append(dict(tag="multi-ramp-above-solvus", multi=True, phases=[ph], se2=(2e-4, 1e-4), temp=("array", [0, H(0.5), H(1.5)], [1000, 1000, 1100]),
+                  calls=[(1.5, 0.02)], iter="euler", constraints=dict(maxNonIsothermalDT=50)))
+    c.append(dict(tag="multi-fault-growth", multi=True, phases=[ph], calls=[(0.5, 0.05)], iter="euler", faults={"growth": [3, 4, 20]}))
+    c.append(dict(tag="multi-fault-growth-rk4", multi=True, phases=[ph], calls=[(0.5, 0.05)], iter="rk4", faults={"growth": [2, 9]}))
+    c.append(dict(tag="multi-fault-df", multi=True, phases=[ph], calls=[(0.5, 0.05)], iter="euler", faults={"drivingForce": [4, 5]}))
     c.append(dict(tag="fault-df-early", phases=[ph], D=1e-16, calls=[(100.0, 0.05)], iter="euler", faults={"drivingForce": [3]}))
     c.append(dict(tag="fault-df-two", phases=[ph], D=1e-16, calls=[(100.0, 0.05)], iter="rk4", faults={"drivingForce": [5, 11]}))
     return c
@@ -63,13 +77,14 @@ def random_configs(rng, n):
         c["D"] = rng.choice([1e-17, 1e-16, 1e-15])
         for p in c["phases"]:
             p["gamma"] = rng.choice([0.04, 0.05, 0.07])
-        c["x0"] = c.get("x0", rng.choice([0.01, 0.02, 0.03]))
+        if not c.get("multi"):
+            c["x0"] = c.get("x0", rng.choice([0.01, 0.02, 0.03]))
         c["calls"] = [(s * rng.choice([0.5, 1, 2]), f) for (s, f) in c["calls"]]
         if rng.random() < 0.3:
             c["pbm"] = (1e-10, 1e-9, rng.choice([24, 30, 36]), 12, 36, rng.random() < 0.7) if rng.random() < 0.5 else c.get("pbm")
             if c["pbm"] is None: del c["pbm"]
         if "faults" in c:
-            c["faults"] = {"drivingForce": sorted(rng.sample(range(1, 30), rng.randint(1, 2)))}
+            c["faults"] = {k: sorted(rng.sample(range(1, 30), rng.randint(1, 2))) for k in c["faults"]}
         out.append(c)
     return out
 
